@@ -37,11 +37,12 @@ open Drand Drand.Store
 /-! ### ties to the regenerated facts: the order of store/cursor calls inside `SyncChain` -/
 
 /-- `Last`, then (inside `Cursor`) `Seek(fromRound)` / `Next`, and only then `AddCallback`; `RemoveCallback(id)` on a
-failed live `Send` and on `ctx.Done` -/
+failed live `Send` and on `ctx.Done` — or (`Gen.syncChainRemovesOwnOnly`, reports/cb_fix_2.diff) the deferred remover of
+the stream's own registration, which go2lean checks separately (`remove := store.AddStreamCallback(…)`; `defer remove()`) -/
 theorem tie_syncchain_calls :
     Gen.syncChainCalls = ["store.Last(ctx)", "store.Cursor(ctx,func{…})", "c.Seek(ctx,fromRound)", "c.Next(ctx)",
-      (if Gen.syncChainRegistersStream then "store.AddStreamCallback(id,func{…})" else "store.AddCallback(id,func{…})"),
-      "store.RemoveCallback(id)", "store.RemoveCallback(id)"] ∧
+      (if Gen.syncChainRegistersStream then "store.AddStreamCallback(id,func{…})" else "store.AddCallback(id,func{…})")] ++
+      (if Gen.syncChainRemovesOwnOnly then [] else ["store.RemoveCallback(id)", "store.RemoveCallback(id)"]) ∧
     Gen.syncChainScanLoop = "bb!=nil;bb,err=c.Next(ctx)" := by decide
 
 /-- the refusal check and the `fromRound != 0` guard around the scan -/
